@@ -72,8 +72,8 @@ impl Property for C11 {
     }
     fn cases(&self, tier: Tier) -> u64 {
         match tier {
-            Tier::Quick => 40_000,
-            Tier::Thorough => 1_500_000,
+            Tier::Quick => 150000,
+            Tier::Thorough => 3000000,
         }
     }
     fn decode(&mut self, tape: &TapeVal) -> Case {
